@@ -18,4 +18,25 @@ def mapGet {K V : Type} [DecidableEq K] : List (K × V) → K → Option V
   | [], _ => none
   | (k', v') :: r, k => if k' = k then some v' else mapGet r k
 
+
+/-- what `DirEntry::file_type()` reports (the entry's OWN type: a symlink is a symlink) -/
+inductive FT
+  | dir | file | symlink | other
+  deriving DecidableEq, Repr
+
+/-- a directory entry as the walker uses it: its path and its own type (none = `file_type()` fails) -/
+structure Ent (P : Type) where
+  path : P
+  ft : Option FT
+
+/-- a file's modification time relative to the epoch, as `SystemTime::duration_since(UNIX_EPOCH)` presents it -/
+inductive MTime
+  | err                                  -- `modified()` is not available
+  | after (secs nanos : Nat)             -- at or after the epoch
+  | before (secs nanos : Nat)            -- before the epoch: the distance to it
+  deriving DecidableEq, Repr
+
+/-- `i64::try_from(n).unwrap_or(i64::MAX)` -/
+def toI64OrMax (n : Nat) : Int := if n ≤ 9223372036854775807 then (n : Int) else 9223372036854775807
+
 end Copia.ScanSupport
